@@ -9,6 +9,8 @@ def tok(k, v):
 
 def run_views(prop, tier, seed, scratch, cfgs, rule):
     vh = build_harness(scratch)
+    rule += (" Lists beyond these bounds (sizes around powers of two up to 1025, thorough 4103; sorted-but-one shapes; values around 2^53, MinInt/MaxInt) are "
+             "run through the real methods, abstracted back to tokens and validated by TLC against the same operators (ViewsTrace.tla).")
     cov = dict(states=0, transitions=0, traces_validated_against_impl=0, evaluations=0, distinct_nontrivial=0, configs=[], samples=[],
                exhaustive=True, spec_drift=[], rule=rule, checker_cmd="tlc MC.tla (spec/Views.tla) ; vh views")
     violations = []
@@ -44,7 +46,46 @@ def run_views(prop, tier, seed, scratch, cfgs, rule):
             pass
         if violations:
             break
+    if not violations and prop in ("C14", "C17", "C18"):
+        run_view_trace(prop, tier, seed, scratch, vh, cov, violations)
     return cov, violations
+
+
+def run_view_trace(prop, tier, seed, scratch, vh, cov, violations):
+    """Large lists (beyond TLC's exhaustive bounds) through the real methods; TLC evaluates Views.tla on the logged lists (ViewsTrace.tla)."""
+    fam = {"C14": "views", "C17": "sort", "C18": "agg"}[prop]
+    trace = scratch.path("viewtrace.ndjson")
+    args = ["viewtrace", "-trace", trace, "-seed", str(seed), "-family", fam] + ([] if tier == "quick" else ["-big"])
+    rc, so, se, wall = run_vh(vh, args, 900)
+    info = json.loads(so.strip().split("\n")[-1])
+    mod = "---- MODULE MC ----\nEXTENDS ViewsTrace\n====\n"
+    cfg = ('CONSTANTS\n Tokens = {}\n MaxLen = 0\n NKeys = 0\n Emit = FALSE\n TraceFile = "%s"\nSPECIFICATION TraceSpec\nCONSTRAINT Mark\n'
+           'POSTCONDITION TraceAccepted\nCHECK_DEADLOCK FALSE\n' % trace)
+    res = run_tlc(scratch, prop + "-viewtrace", mod, cfg, ["Views.tla", "ViewsTrace.tla"], 1800, workers=1, heap="8g")
+    cov["states"] += res.get("states", 0)
+    cov["transitions"] += res.get("transitions", 0)
+    cov["large_lists"] = dict(events=info["events"], max_size=info["max_size"], accepted=bool(res["ok"]), tlc_wall_s=round(res["wall_s"], 1))
+    if res["ok"]:
+        cov["traces_validated_against_impl"] += info["events"]
+        cov["evaluations"] += info["events"]
+        log("[viewtrace] %s: %d recorded lists (up to %d elements) accepted by ViewsTrace.tla in %.1fs" % (prop, info["events"], info["max_size"], res["wall_s"]))
+        return
+    if "TraceAccepted" not in res["tail"]:
+        raise Inconclusive("TLC failed on the recorded view trace for a reason other than rejecting it:\n" + res["tail"][:3000])
+    first = res.get("states", 0)
+    lines = open(trace).read().split("\n")
+    bad = json.loads(lines[first - 1]) if 0 < first <= len(lines) else {}
+    shown = dict(bad)
+    if len(shown.get("list", [])) > 40:
+        shown = {k: (v if k in ("note", "agg", "all", "allNumeric", "sortDomain") else "<%d entries>" % len(v) if isinstance(v, list) else "...") for k, v in bad.items()}
+        shown["size"] = len(bad.get("list", []))
+    os.makedirs(REPLAYS, exist_ok=True)
+    keep = os.path.join(REPLAYS, "%s-viewtrace-%d.json" % (prop, seed))
+    json.dump(bad, open(keep, "w"))
+    violations.append(dict(property=prop, check="viewtrace", sig="viewtrace: %s" % (bad.get("note") or "results differ from Views.tla"),
+                           message="recorded results of the view/sort/aggregate methods on a list of %d elements are not what Views.tla computes (event %d, harness note: %s); record kept in %s; summary: %s"
+                                   % (len(bad.get("list", [])), first, bad.get("note"), keep, json.dumps(shown)[:600])))
+    log("[viewtrace] %s: REJECTED at event %d" % (prop, first))
 
 
 MIXED = [("nil", 0), ("bool", 1), ("int", 1), ("int", 2), ("float", 2), ("str", 1), ("O", 1), ("O", 2), ("L", 1)]
